@@ -252,6 +252,12 @@ func (n *vNode) waitPersisted(t *testing.T) {
 		enq := atomic.LoadInt64(&n.writer.VerifEnqueued)
 		done := atomic.LoadInt64(&n.writer.TotalEntries) + atomic.LoadInt64(&n.writer.FailedWrites)
 		if done >= enq {
+			// writeEntry counts the entry while it still holds the writer's mutex and may go on to
+			// rotate to a fresh file under that lock: CurrentFile() takes the same mutex, so when it
+			// returns the entry AND the rotation it triggered are complete (otherwise a killed
+			// process's writer could create its next file after the following recovery scanned
+			// the directory)
+			_ = n.writer.CurrentFile()
 			return
 		}
 		if time.Now().After(deadline) {
